@@ -54,7 +54,12 @@ def main():
             raise SystemExit("worktree add failed: " + r.stderr)
         env = dict(os.environ, PYTHONPATH=str(wt / "src"), PYTHONDONTWRITEBYTECODE="1")
         env.pop("ZORG_VERIF", None)
-        d0 = sh(["/venv/bin/python", str(out_dir / "demo.py")], env=env, cwd=str(wt), timeout=900)
+        # some demonstrations locate the source relative to their own path
+        # (<worktree>/seed/demo.py -> ../src), so run them from that place
+        (wt / "seed").mkdir(exist_ok=True)
+        demo_in_wt = wt / "seed" / "demo.py"
+        shutil.copy(out_dir / "demo.py", demo_in_wt)
+        d0 = sh(["/venv/bin/python", str(demo_in_wt)], env=env, cwd=str(wt), timeout=900)
         result["demo_clean_exit"] = d0.returncode
         result["demo_clean_tail"] = (d0.stdout + d0.stderr)[-300:]
         a = sh(["git", "-C", str(wt), "apply", str(out_dir / "patch.diff")])
@@ -65,7 +70,7 @@ def main():
             b = sh([str(VERIF / "tools" / "baseline.sh"), str(wt)], timeout=1800)
             result["baseline_with_patch"] = b.stdout.strip().split("\n")[-1]
             result["baseline_ok"] = b.returncode == 0
-            d1 = sh(["/venv/bin/python", str(out_dir / "demo.py")], env=env, cwd=str(wt), timeout=900)
+            d1 = sh(["/venv/bin/python", str(demo_in_wt)], env=env, cwd=str(wt), timeout=900)
             result["demo_patched_exit"] = d1.returncode
             result["demo_patched_tail"] = (d1.stdout + d1.stderr)[-400:]
             result["confirmed"] = bool(d0.returncode == 0 and result["baseline_ok"] and d1.returncode != 0)
